@@ -123,8 +123,9 @@ def case_krum(sp, m, f, k):
         assume(z3.And(*[(s <= x).z() for x in subs]))
         assume(z3.Or(*[s.eqz(x) for x in subs]))
         scores.append(s)
+    mm = any(e[0] == "kernel" and e[1] == "cdist" and e[2] == "mm_if_necessary" for e in torch.EVENTS)
     def cex(model):
-        return dict(kind="krum", f=f, k=k, **cex_values(model, dist=d, weights_model=w, scores=scores))
+        return dict(kind="krum", f=f, k=k, cdist_mm=mm, **cex_values(model, dist=d, weights_model=w, scores=scores))
     sel = [x.eqz(R(Fraction(1, k))) for x in w]
     unsel = [x.eqz(0) for x in w]
     obs = [Ob("krum_weights_are_one_over_k_on_k_rows",
